@@ -1069,6 +1069,24 @@ func ruleClosePathsReachCarrier(c *Ctx, rule string) {
 			}
 		}
 	}
+	// ... and no return lies between the successful registration and the deferred Done (a failure there would leave the
+	// WaitGroup one too high for good: Stop / GracefulStop never return)
+	if done != nil && addCall != nil {
+		for _, ret := range returnsOf(done.Parent()) { // (the function that registered the Done: Serve, or the part split off it)
+			if addCall.Parent() != done.Parent() || !reaches(addCall, ret) || dominates(done, ret) {
+				continue
+			}
+			failedAdd := false
+			for _, f := range factsAt(ret) {
+				if x, op, y, ok := cmpFact(f); ok && op == token.NEQ && isNilConst(y) && (stripConv(x) == ssa.Value(addCall) || origin(x) == ssa.Value(addCall)) {
+					failedAdd = true
+				}
+			}
+			if !failedAdd {
+				okDone = false
+			}
+		}
+	}
 	c.check(okDone, rule, "Serve pairs wg.Add with a deferred wg.Done on the started path", posOf(w, serve), "addInstance ok -> defer wg.Done() -> serveTunnel", "Serve does not defer wg.Done right after a successful registration: Stop/GracefulStop wait forever, or return early")
 	// what is registered (and half-closed by Stop from another goroutine) is the carrier the tunnel server sends on: the
 	// same, thread-safe, object
